@@ -235,6 +235,27 @@ def run(tier, seed):
         acc.check('only_construct_errors_build', src, objs=objs, kw={})
         for d in datas[:5]:
             cases.append(dict(src=src, op='parse', data=d))
+    # the classes that translate encoding failures (FormatField, BytesInteger, BitsInteger, the string classes, Mapping), alone, nested and under
+    # wrappers that pass the value through: a value they cannot encode (wrong type, out of range, not finite, too large for the float format)
+    # is refused with a ConstructError. (Composites and byte fields given a value of the wrong shape are outside this: Struct.build({}) raising
+    # KeyError is behaviour the library's own tests pin.)
+    bad = [None, 'x', b'x', '', 1e39, -3.5e38, 65520.0, -65520.0, 1e308, float('inf'), float('-inf'), float('nan'), -1, 256, 2 ** 64, -2 ** 63 - 1, 2 ** 200,
+           2.5, [1], {}, (1,), True, 1 + 2j, bytearray(b'ab'), b'ab', 'ab', {'a': 1}, [b'a', 1]]
+    plain = [nm for nm, _, _ in G.INT_NAMES] + [nm for nm, _, _ in G.FLOAT_NAMES] + ['BytesInteger(3)', 'BytesInteger(2, signed=True, swapped=True)']
+    leafs = plain + ['VarInt', 'ZigZag', 'Bitwise(BitsInteger(8))', 'Bitwise(BitsInteger(16, signed=True, swapped=True))', 'CString("utf8")', 'PascalString(Byte, "ascii")',
+             'PaddedString(4, "utf8")', 'GreedyString("utf_16_le")', 'Mapping(Byte, {"a": 1})', 'Const(2, Byte)', 'Hex(Int16ub)', 'Padded(4, Int16ub)', 'Aligned(4, Float32b)',
+             'Prefixed(Byte, Float16b)', 'NullTerminated(Int16ub)', 'ByteSwapped(Float32l)', 'Default(Float32b, 1.0)', 'Rebuild(Float16b, 1e9)', 'Rebuild(Float32l, -1e39)',
+             'Optional(Float32b)', 'Select(Float16b, Float32b)', 'OneOf(Float32b, [1.0])', 'IfThenElse(True, Float32l, Byte)', 'Switch(1, {1: Float16l})', 'Pointer(1, Float32b)',
+             'ProcessXor(1, Float32b)', 'FixedSized(4, Float32b)', 'Compressed(Float32b, "zlib")', 'Bitwise(Bytewise(Float16b))']
+    for lf in leafs:
+        if not C.constructible(lf):
+            continue
+        acc.check('only_construct_errors_build', lf, objs=list(bad), kw={})
+        if lf in plain:
+            for tmpl, mk in (('Struct("a"/Byte, "v"/%s)', lambda v: dict(a=1, v=v)), ('Array(2, %s)', lambda v: [v, v]), ('Sequence(Byte, %s)', lambda v: [1, v]),
+                             ('Prefixed(Byte, Struct("v"/%s))', lambda v: dict(v=v)), ('FocusedSeq("v", "v"/%s)', lambda v: v), ('GreedyRange(%s)', lambda v: [v]),
+                             ('LazyStruct("v"/%s)', lambda v: dict(v=v)), ('Union(0, "v"/%s)', lambda v: dict(v=v)), ('RawCopy(%s)', lambda v: dict(value=v))):
+                acc.check('only_construct_errors_build', tmpl % lf, objs=[mk(v) for v in bad], kw={})
     # two-feature interactions: every wrapper class over every kind of inner construct, on what it builds, cut short, and mutated
     for src, v in C.pairs():
         if not C.constructible(src):
